@@ -42,11 +42,17 @@ theorem c11_instep_invariant {m : M} {op : Op} (hi : InStep m) (hw : WellFormedO
     | catch_ fa => right; exact inv_catch hi hw
     | pthreadExit child slot orig => right; exact inv_pthreadExit hi hw
     | exit child slot orig => exact instep_exit child slot orig
-    | vforkExec a b c d e => exact absurd rfl (hv a b c d e)
+    | vforkExec a b c d e => right; exact (inv_vforkExec hi hw).1
     | mtdDtor => right; exact inv_mtdDtor hi hw
 
+/-- vfork + exec: the parent comes back from vfork to its caller although the child used the shared
+    shadow stack in between (prepare_vfork / setup_vfork / restore_vfork) -/
+theorem c11_vfork_returns {m : M} (hi : Inv m) {child slot orig echild eorig : Nat}
+    (hw : WellFormedOp m (.vforkExec child slot orig echild eorig)) :
+    (step Fix.all m (.vforkExec child slot orig echild eorig)).last = orig := (inv_vforkExec hi hw).2
+
 /-- non-terminal steps keep the machine running and in step -/
-theorem inv_step_nonterminal {m : M} {op : Op} (hi : Inv m) (hw : WellFormedOp m op) (hnt : op.terminal = false) :
+theorem inv_step_nonterminal {m : M} {op : Op} (hi : Inv m) (hw : WellFormedOp m op) (hnt : op.noDepthClaim = false) :
     Inv (step Fix.all m op) := by
   cases op with
   | call k child slot orig fpw => exact inv_call hi hw
@@ -65,9 +71,9 @@ theorem inv_step_nonterminal {m : M} {op : Op} (hi : Inv m) (hw : WellFormedOp m
   | unwind => exact inv_unwind hi hw
   | resume => exact inv_resume hi hw
   | catch_ fa => exact inv_catch hi hw
-  | pthreadExit child slot orig => simp [Op.terminal] at hnt
-  | exit child slot orig => simp [Op.terminal] at hnt
-  | vforkExec a b c d e => simp [Op.terminal] at hnt
+  | pthreadExit child slot orig => simp [Op.noDepthClaim] at hnt
+  | exit child slot orig => simp [Op.noDepthClaim] at hnt
+  | vforkExec a b c d e => simp [Op.noDepthClaim] at hnt
   | mtdDtor => exact inv_mtdDtor hi hw
 
 /-- the invariant is not vacuous: the initial machine is in step and so is a machine inside
@@ -108,7 +114,7 @@ theorem c11_unwinder_sees_real_addresses {m : M} (hi : Inv m) (hw : WellFormedOp
     shadow entries and every entry's `depth` is the number of entries below it (also in every
     jmp_buf copy). -/
 theorem c11_trace_depth_invariant {m : M} {op : Op} (hi : Inv m) (ht : TraceInv m.sh) (hw : WellFormedOp m op)
-    (hnt : op.terminal = false) : TraceInv (step Fix.all m op).sh :=
+    (hnt : op.noDepthClaim = false) : TraceInv (step Fix.all m op).sh :=
   trace_step hi ht hw hnt
 
 /-- After a longjmp or a catch (or any other non-terminal step that leaves no exception in
@@ -116,7 +122,7 @@ theorem c11_trace_depth_invariant {m : M} {op : Op} (hi : Inv m) (ht : TraceInv 
     are open on the real stack — and the depths stored in the shadow entries are
     n-1, …, 0; so the records of every later call (entryRec/exitRec copy `depth`) carry the true depth. -/
 theorem c11_trace_depth_after_jump {m : M} {op : Op} (hi : Inv m) (ht : TraceInv m.sh) (hw : WellFormedOp m op)
-    (hnt : op.terminal = false) (hx : (step Fix.all m op).sh.inExc = false) :
+    (hnt : op.noDepthClaim = false) (hx : (step Fix.all m op).sh.inExc = false) :
     (step Fix.all m op).sh.recIdx = logicalDepth (step Fix.all m op).fs ∧
     (step Fix.all m op).sh.rs.map Ent.depth = descFrom (logicalDepth (step Fix.all m op).fs) := by
   have ht' := trace_step hi ht hw hnt
